@@ -24,6 +24,7 @@ func init() {
 }
 
 func runC15(c *core.Ctx) {
+	c15RaterSelectorsForCurrentEpoch(c)
 	c15SelectionStatePrivate(c)
 	cone := shardingCone(c, [][2]string{{"indexHashedNodesCoordinator", "ComputeConsensusGroup"}, {"indexHashedNodesCoordinatorWithRater", "ComputeAdditionalLeaving"},
 		{"", "selectValidators"}, {"SelectionBasedProvider", "Get"}})
@@ -186,4 +187,44 @@ func c15SelectionStatePrivate(c *core.Ctx) {
 	if n == 0 {
 		c.Note("SelectionBasedProvider.Get has no deferred state-writing call")
 	}
+}
+
+// c15RaterSelectorsForCurrentEpoch: the rating-aware coordinator replaces the weight-1 selectors
+// the base constructor built by weighted ones - for the epoch the node is in. The configuration it
+// rebuilds the selectors for is looked up under currentEpoch (a node that starts in a later epoch
+// has startEpoch != currentEpoch; with the wrong key the lookup misses and this node selects
+// groups with other weights than everybody else until the next epoch change).
+func c15RaterSelectorsForCurrentEpoch(c *core.Ctx) {
+	fn := anchorF(c, "sharding", "NewIndexHashedNodesCoordinatorWithRater")
+	if fn == nil {
+		return
+	}
+	n := 0
+	core.Instrs(fn, func(in ssa.Instruction) {
+		cc := core.CallOf(in)
+		if cc == nil || cc.StaticCallee() == nil && !cc.IsInvoke() {
+			return
+		}
+		name := core.CallDesc(cc).Name
+		if name != "createSelectors" {
+			return
+		}
+		n++
+		good, key := false, "?"
+		for x := range core.BackwardReachPure(cc.Args[len(cc.Args)-1]) {
+			if lk, ok := x.(*ssa.Lookup); ok && isFieldOf(lk.X, "nodesConfig") {
+				_, f := core.FieldLoad(lk.Index)
+				if f != nil {
+					key = f.Name()
+					good = f.Name() == "currentEpoch"
+				} else {
+					key = core.ExprKey(lk.Index)
+				}
+			}
+		}
+		c.Check(good, "C15/rater-selectors-for-the-current-epoch", "NewIndexHashedNodesCoordinatorWithRater", in.Pos(),
+			"the configuration whose selectors are rebuilt is nodesConfig[currentEpoch]",
+			"the weighted selectors are rebuilt for nodesConfig["+key+"], not for the current epoch: a node started in a later epoch keeps weight-1 selectors for the epoch it is in and computes other consensus groups than the rest of the network")
+	})
+	c.Floor("C15/rater-selectors-for-the-current-epoch", 1)
 }
